@@ -2,10 +2,7 @@
 #include "vf_harness.h"
 #include <stdarg.h>
 static int streq(const char *a, const char *b) { for (u32 i = 0; i < 24; i++) { if (a[i] != b[i]) return 0; if (!a[i]) return 1; } return 0; }
-void h_opcodes(void) {
-  u32 nw = w_nwriter(), maxop = w_max_opcode(), lastk = w_last_kind();
-  VF_ASSERT(nw >= 60 && nw <= 100, "writer table populated");
-  u32 i = (u32)vf_nd64(); VF_REQUIRE(i < nw);
+static void check_writer_entry(u32 i, u32 maxop, u32 lastk) {
   u32 code = w_wcode(i); VF_OBS(code);
   VF_ASSERT(code <= maxop, "writer opcode within the reader's table");
   if (code <= maxop) {
@@ -17,14 +14,23 @@ void h_opcodes(void) {
       u32 fk = w_rfirst(code); VF_ASSERT(fk != 0 && fk <= k, "kind belongs to the class whose first member is first_kind");
     }
   }
-  u32 o = (u32)vf_nd64(); VF_REQUIRE(o <= maxop);
-  u32 k2 = w_rkind(o);
-  int leaf = streq(w_rstr(k2 <= lastk ? k2 : 0), "number") || streq(w_rstr(k2 <= lastk ? k2 : 0), "variable") || streq(w_rstr(k2 <= lastk ? k2 : 0), "string") || streq(w_rstr(k2 <= lastk ? k2 : 0), "function call");
+}
+static void check_reader_opcode(u32 o, u32 nw, u32 lastk) {
+  u32 k2 = w_rkind(o); int leaf = 0;
+  if (k2 != 0 && k2 <= lastk) { const char *nm = w_rstr(k2); leaf = streq(nm, "number") || streq(nm, "variable") || streq(nm, "string") || streq(nm, "function call"); }
   if (k2 != 0 && !leaf) {      /* numbers, variables, strings, function calls have their own NL syntax (n/v/h/f lines), not an operator line */
     VF_ASSERT(k2 <= lastk && w_ropcode(k2) == o, "nl_opcode(GetOpCodeInfo(o).kind) == o");
     int found = 0; for (u32 j = 0; j < 100; j++) { if (j >= nw) break; if ((u32)w_wcode(j) == o) found = 1; }
     VF_ASSERT(found, "every opcode the reader accepts has a writer constant");
   }
+}
+/* both tables are finite: every entry is visited (the table index is concrete in each visit; a symbolic index into the generated table
+ * object, a struct of 200+ mixed members, makes CBMC lose the string pointers) */
+void h_opcodes(void) {
+  u32 nw = w_nwriter(), maxop = w_max_opcode(), lastk = w_last_kind();
+  VF_ASSERT(nw >= 60 && nw <= 100 && maxop < 100, "tables populated");
+  for (u32 i = 0; i < 100; i++) { if (i >= nw) break; check_writer_entry(i, maxop, lastk); }
+  for (u32 o = 0; o < 100; o++) { if (o > maxop) break; check_reader_opcode(o, nw, lastk); }
   VF_WITNESS();
 }
 /* recorder standing for BinaryFormatter::apr(File&, fmt, ...): tag byte, then the payload of the single directive nput uses */
@@ -69,7 +75,7 @@ static u8 dig[MAXD + 1]; static u32 nd; static s32 dexp; static u32 dsign; stati
 #ifndef VF_REAL
 /* dtoa_r_dmgay contract: returns a NUL-terminated string of nd >= 1 decimal digits without trailing zeros (first digit non-zero) in buf,
  * *decpt = position of the decimal point (value = 0.d1d2.. * 10^decpt), *sign, *rve = end of the string */
-char *dtoa_r_dmgay(double x, u32 mode, u32 ndigits, char *decpt, char *sign, char *rve, char *buf, u64 blen) {
+char *vf_c_dtoa_r_dmgay(double x, u32 mode, u32 ndigits, char *decpt, char *sign, char *rve, char *buf, u64 blen) {
   for (u32 i = 0; i < MAXD; i++) { if (i >= nd) break; buf[i] = (char)dig[i]; }
   buf[nd] = 0; *(s32 *)decpt = dexp; *(u32 *)sign = dsign; *(char **)rve = buf + nd; dbuf_seen = buf; return buf;
 }
